@@ -47,6 +47,46 @@ class LikelihoodList(Likelihood):
                 for likelihood, args_ in length_safe_zip(self.likelihoods, _get_tuple_args_(*args))
             ]
 
+    def log_marginal(self, *args, **kwargs):
+        if "noise" in kwargs:
+            noise = kwargs.pop("noise")
+            # if noise kwarg is passed, assume it's an iterable of noise tensors
+            return [
+                likelihood.log_marginal(*args_, **{**kwargs, "noise": noise_})
+                for likelihood, args_, noise_ in length_safe_zip(self.likelihoods, _get_tuple_args_(*args), noise)
+            ]
+        else:
+            return [
+                likelihood.log_marginal(*args_, **kwargs)
+                for likelihood, args_ in length_safe_zip(self.likelihoods, _get_tuple_args_(*args))
+            ]
+
+    def marginal(self, *args, **kwargs):
+        if "noise" in kwargs:
+            noise = kwargs.pop("noise")
+            # if noise kwarg is passed, assume it's an iterable of noise tensors
+            return [
+                likelihood.marginal(*args_, **{**kwargs, "noise": noise_})
+                for likelihood, args_, noise_ in length_safe_zip(self.likelihoods, _get_tuple_args_(*args), noise)
+            ]
+        else:
+            return [
+                likelihood.marginal(*args_, **kwargs)
+                for likelihood, args_ in length_safe_zip(self.likelihoods, _get_tuple_args_(*args))
+            ]
+
+    def get_fantasy_likelihood(self, **kwargs):
+        if "noise" in kwargs:
+            noise = kwargs.pop("noise")
+            # one (optional) noise tensor per member; None: no fantasy noise for that member
+            members = [
+                likelihood.get_fantasy_likelihood(**({**kwargs, "noise": noise_} if noise_ is not None else kwargs))
+                for likelihood, noise_ in length_safe_zip(self.likelihoods, noise)
+            ]
+        else:
+            members = [likelihood.get_fantasy_likelihood(**kwargs) for likelihood in self.likelihoods]
+        return self.__class__(*members)
+
     def pyro_sample_output(self, *args, **kwargs):
         if "noise" in kwargs:
             noise = kwargs.pop("noise")
